@@ -183,17 +183,25 @@ theorem kept_cons_kept {ft e es} (h : skipped ft e = false) : kept ft (e :: es) 
 
 theorem stub_id (k : Int) (i : Inst) : (stub k i).id = incrementFileId k i.id := rfl
 
-theorem pass1_spec (ft : FileType) (k : Int) : ∀ (es : List Entry) (s : Sess),
+/-- pass 1 without the abort rule -/
+def pass1Fold (ft : FileType) (k : Int) (s : Sess) (es : List Entry) : Sess := es.foldl (pass1Step ft k) s
+
+/-- records of `es` that count towards the abort rule although nothing is wrong with them: the skipped `D` entries, when the
+    code counts them (`Generated.deletedCountsAsFailure`) -/
+def cntSkipped (ft : FileType) (es : List Entry) : Nat :=
+  if deletedCountsAsFailure then (es.filter (skipped ft)).length else 0
+
+theorem pass1Fold_spec (ft : FileType) (k : Int) : ∀ (es : List Entry) (s : Sess),
     (∀ x ∈ fids k (kept ft es), x ∉ ids s.nodes) → (fids k (kept ft es)).Nodup →
     (∀ x ∈ fids k (kept ft es), x ≠ unassignedFileId) →
-    (pass1 ft k s es).nodes = s.nodes ++ (kept ft es).map (stubNode ft k) ∧
-    (pass1 ft k s es).maxId = maxWith s.maxId (fids k (kept ft es)) := by
+    (pass1Fold ft k s es).nodes = s.nodes ++ (kept ft es).map (stubNode ft k) ∧
+    (pass1Fold ft k s es).maxId = maxWith s.maxId (fids k (kept ft es)) := by
   intro es
   induction es with
-  | nil => intro s _ _ _; exact ⟨by simp [pass1, kept], rfl⟩
+  | nil => intro s _ _ _; exact ⟨by simp [pass1Fold, kept], rfl⟩
   | cons e es ih =>
     intro s hfresh hnd hnz
-    simp only [pass1, List.foldl_cons]
+    simp only [pass1Fold, List.foldl_cons]
     cases hsk : skipped ft e with
     | true =>
       rw [kept_cons_skipped hsk] at hfresh hnd hnz ⊢
@@ -216,10 +224,75 @@ theorem pass1_spec (ft : FileType) (k : Int) : ∀ (es : List Entry) (s : Sess),
           simp only [ids, stubNode, List.map_cons, List.map_nil, List.mem_singleton, stub_id]
           intro he; exact hnd.1 (he ▸ hx))
         hnd.2 hnz.2
-      simp only [pass1] at this
+      simp only [pass1Fold] at this
       refine ⟨?_, ?_⟩
       · rw [this.1]; simp [List.append_assoc]
       · rw [this.2]; simp [maxWith, fids]
+
+theorem cntSkipped_cons_skipped {ft e es} (h : skipped ft e = true) :
+    cntSkipped ft (e :: es) = cntSkipped ft es + (if deletedCountsAsFailure then 1 else 0) := by
+  unfold cntSkipped; cases deletedCountsAsFailure <;> simp [List.filter_cons, h]
+
+theorem cntSkipped_cons_kept {ft e es} (h : skipped ft e = false) : cntSkipped ft (e :: es) = cntSkipped ft es := by
+  unfold cntSkipped; cases deletedCountsAsFailure <;> simp [List.filter_cons, h]
+
+/-- as long as the abort threshold is not reached the abort rule is invisible -/
+theorem pass1Go_fold (ft : FileType) (k : Int) : ∀ (es : List Entry) (nc : Nat) (s : Sess),
+    (∀ x ∈ fids k (kept ft es), x ∉ ids s.nodes) → (fids k (kept ft es)).Nodup →
+    (∀ x ∈ fids k (kept ft es), x ≠ unassignedFileId) → nc + cntSkipped ft es ≤ maxErrorCount →
+    pass1Go ft k nc s es = pass1Fold ft k s es := by
+  intro es
+  induction es with
+  | nil => intro nc s _ _ _ _; rfl
+  | cons e es ih =>
+    intro nc s hfresh hnd hnz hb
+    simp only [pass1Go, pass1Fold, List.foldl_cons]
+    cases hsk : skipped ft e with
+    | true =>
+      rw [kept_cons_skipped hsk] at hfresh hnd hnz
+      rw [cntSkipped_cons_skipped hsk] at hb
+      have hst : pass1Step ft k s e = s := by simp [pass1Step, hsk]
+      have hf : failsPass1 ft k s e = deletedCountsAsFailure := by simp [failsPass1, hsk]
+      rw [hst, hf]
+      generalize deletedCountsAsFailure = D at hb ⊢
+      have hle : ¬ ((if D = true then nc + 1 else nc) > maxErrorCount) := by
+        cases D <;> simp at hb ⊢ <;> omega
+      rw [if_neg hle]
+      have := ih (if D = true then nc + 1 else nc) s hfresh hnd hnz
+        (by cases D <;> simp at hb ⊢ <;> omega)
+      simpa [pass1Fold] using this
+    | false =>
+      rw [kept_cons_kept hsk] at hfresh hnd hnz
+      rw [cntSkipped_cons_kept hsk] at hb
+      simp only [fids, List.map_cons, List.mem_cons, forall_eq_or_imp, List.nodup_cons] at hfresh hnd hnz
+      have hf : incrementFileId k e.inst.id ∉ ids s.nodes := hfresh.1
+      have hfl : failsPass1 ft k s e = false := by simp [failsPass1, hsk, find_isSome_false hf]
+      have hstep : pass1Step ft k s e =
+          ⟨s.nodes ++ [stubNode ft k e], if incrementFileId k e.inst.id > s.maxId then incrementFileId k e.inst.id else s.maxId⟩ := by
+        simp only [pass1Step, hsk, Bool.false_eq_true, if_false, find_isSome_false hf]
+        exact append_fresh s (stub k e.inst) _ hnz.1 hf
+      rw [hfl]
+      simp only [Bool.false_eq_true, if_false]
+      rw [if_neg (by omega)]
+      have := ih nc (pass1Step ft k s e)
+        (by
+          rw [hstep]
+          intro x hx
+          simp only [ids_append, List.mem_append, not_or]
+          refine ⟨hfresh.2 x hx, ?_⟩
+          simp only [ids, stubNode, List.map_cons, List.map_nil, List.mem_singleton, stub_id]
+          intro he; exact hnd.1 (he ▸ hx))
+        hnd.2 hnz.2 hb
+      simpa [pass1Fold] using this
+
+theorem pass1_spec (ft : FileType) (k : Int) (es : List Entry) (s : Sess)
+    (hfresh : ∀ x ∈ fids k (kept ft es), x ∉ ids s.nodes) (hnd : (fids k (kept ft es)).Nodup)
+    (hnz : ∀ x ∈ fids k (kept ft es), x ≠ unassignedFileId) (hb : cntSkipped ft es ≤ maxErrorCount) :
+    (pass1 ft k s es).nodes = s.nodes ++ (kept ft es).map (stubNode ft k) ∧
+    (pass1 ft k s es).maxId = maxWith s.maxId (fids k (kept ft es)) := by
+  unfold pass1
+  rw [pass1Go_fold ft k es 0 s hfresh hnd hnz (by omega)]
+  exact pass1Fold_spec ft k es s hfresh hnd hnz
 
 theorem pass2_maxId (ft fill asev k) : ∀ (es : List Entry) (s : Sess), (pass2 ft fill asev k s es).maxId = s.maxId := by
   intro es
